@@ -1,6 +1,7 @@
 /- The real-number instance of the scalar interface of the generated definitions. -/
 import Mathlib.Analysis.SpecialFunctions.Pow.Real
 import Mathlib.Analysis.SpecialFunctions.Gamma.Basic
+import Mathlib.Analysis.SpecialFunctions.Trigonometric.Basic
 import FFVerif.Model.Scalar
 
 namespace FF
@@ -18,6 +19,7 @@ noncomputable instance : Transc ℝ where
   log := Real.log
   log10 x := Real.log x / Real.log 10
   sqrt := Real.sqrt
+  sin := Real.sin
   gamma := Real.Gamma
   pi := Real.pi
   max2 := max
@@ -32,6 +34,7 @@ noncomputable instance : Transc ℝ where
 @[simp] theorem log_real (x : ℝ) : Transc.log x = Real.log x := rfl
 @[simp] theorem log10_real (x : ℝ) : Transc.log10 x = Real.log x / Real.log 10 := rfl
 @[simp] theorem sqrt_real (x : ℝ) : Transc.sqrt x = Real.sqrt x := rfl
+@[simp] theorem sin_real (x : ℝ) : Transc.sin x = Real.sin x := rfl
 @[simp] theorem gamma_real (x : ℝ) : Transc.gamma x = Real.Gamma x := rfl
 @[simp] theorem pi_real : (Transc.pi : ℝ) = Real.pi := rfl
 @[simp] theorem max2_real (x y : ℝ) : Transc.max2 x y = max x y := rfl
